@@ -1,4 +1,4 @@
-\* seeded sample (quick tier): NumMb random mailboxes of <= 3 messages over the
+\* seeded sample (thorough tier): NumMb random mailboxes of <= 3 messages over the
 \* full message universe; per mailbox NumLeaf single keys, and per leaf set
 \* (NumLeafSets sets of LeafSetSize random leaves) NumD1 programs of depth 1
 \* and NumD2 of depth 2; every program also in its logically equivalent
@@ -30,7 +30,7 @@ CONSTANTS
   UidSets <- StdUidSets
   DateModes = {"written", "utc"}
   Devs = {"BodyKeyMatchesHeaders", "UidSearchSeqSetAsUid", "DoubleNotRejected"}
-  NumMb = 24
+  NumMb = 200
   NumLeaf = 40
   NumLeafSets = 6
   LeafSetSize = 4
